@@ -1,5 +1,6 @@
 import DC.Proofs.BufioRefine
 import DC.Proofs.BufioEval
+import DC.Gen.ReaderUse
 
 /-!
 # C14 — parsing is independent of how the `io.Reader` delivers the bytes (the `bufio` part)
@@ -27,6 +28,17 @@ Hypotheses, exactly:
 -/
 namespace DC.Props.C14
 open DC DC.Bufio
+
+/-- **The model's interface is the code's** (obligation over the regenerated `DC.Gen.ReaderUse`, extracted from `/repo`
+with go/types on every check): the field `Lexer.reader` is used at exactly three places, the receivers of
+`ReadRune` (in `readChar`, lexer.go:47), `Peek` (in `peek`, lexer.go:74) and `Size` (in `peek`, lexer.go:78); it is
+assigned only in the composite literal of `New` and never passed anywhere. `Size()` (bufio.go:67) is a pure getter of
+`len(b.buf)` — modelled as `BR.size`, it neither reads nor changes reader state (trusted base: that one-line body).
+So every way the lexer, and through it `Parse`/`Explain`, depends on the `io.Reader` goes through `Op.readRune` and
+`Op.peek`. If the lexer starts calling another method this theorem stops compiling. -/
+theorem reader_use_ok :
+    DC.Gen.ReaderUse.readerMethodCalls = ["ReadRune", "Peek", "Size"] ∧ DC.Gen.ReaderUse.readerFieldUses = 3 := by
+  decide
 
 /-- For every clean, non-stalling script, every buffer size and every operation sequence, `bufio.Reader` returns
 op for op what the pure reader over the concatenated bytes returns. -/
